@@ -169,6 +169,9 @@ func TestClean(t *testing.T) {
 					if err == nil {
 						c.Violation("invalid-chain-written", "CertChain.Write", "a chain with an invalid OCSP presence pattern was written")
 					}
+					if len(blob) != 0 {
+						c.Violation("refused-chain-partly-written", "CertChain.Write", "the chain was refused (%v) but %d bytes of it had already reached the destination", err, len(blob))
+					}
 					// the same chain, serialized by the reference encoder, must be refused by the reader
 					rb := refEncode(ch)
 					got, rerr, pi, _ := readChain(c, rb, c.DrawReaderPlan("certnet.read", len(rb), false))
